@@ -847,8 +847,9 @@ pub fn child_main(args: &Args) -> ! {
         }
         v
     };
-    let observe = |files: &[Vec<u8>], rewrite: bool| -> Dump {
-        let mut d = dump::dump_container(&entry, &spec);
+    let moved_name = case_dir.join("moved-away.bin");
+    let observe = |files: &[Vec<u8>], rewrite: bool, moved: bool| -> Dump {
+        let mut d = dump::dump_container_moved(&entry, &spec, if moved { Some(moved_name.as_path()) } else { None });
         for (fi, fspans) in spans.iter().enumerate() {
             for (si, span) in fspans.iter().enumerate() {
                 if span.kind == b'C' {
@@ -886,7 +887,7 @@ pub fn child_main(args: &Args) -> ! {
     };
     // pristine observation (must not fail: harness error otherwise)
     write_files(&case_dir, &names, &pristine_bytes);
-    let pristine_dump = observe(&pristine_bytes, mode == Mode::C05);
+    let pristine_dump = observe(&pristine_bytes, mode == Mode::C05, false);
 
     for i in lo..hi {
         proc::child::begin(i);
@@ -935,6 +936,8 @@ pub fn child_main(args: &Args) -> ! {
             }
         }
         write_files(&case_dir, &names, &files);
+        // (C06) one case in seven runs in a process whose standard error cannot be written to
+        let broken_stderr = if mode == Mode::C06 && i % 7 == 4 { Some(proc::child::BrokenStderr::install()) } else { None };
         let payload = std::panic::catch_unwind(std::panic::AssertUnwindSafe(|| match mode {
             Mode::C04 => {
                 let mut obs = observe_checks(&entry, &case_dir, &names, &spans, &fault.files(), i % 3 == 0);
@@ -952,7 +955,11 @@ pub fn child_main(args: &Args) -> ! {
                 // the rewrite step only for damage that lands in a manifest pack-info slot (it is
                 // the only structure set_location reads and re-signs)
                 let in_slot = mode == Mode::C05 && fault_hits_manifest_slot(fault, &spans);
-                let d = observe(&files, in_slot);
+                // a one-file container in one case out of five: the file is renamed once it is
+                // open (log rotation, an upgrade that moves the old edition aside); the name it
+                // was opened under resolves to nothing while the damaged blocks are met
+                let moved = names.len() == 1 && i % 5 == 3;
+                let d = observe(&files, in_slot, moved);
                 let env_faults = hooks.take_faults_fired();
                 let reference = if in_slot {
                     pristine_dump.clone()
@@ -972,6 +979,7 @@ pub fn child_main(args: &Args) -> ! {
                 let changed = d != reference;
                 json!({
                     "fired": fired,
+                    "moved_after_open": moved,
                     "mmap_refused": env_faults.get("mmap").copied().unwrap_or(0),
                     "read_failed": env_faults.get("file_read").copied().unwrap_or(0),
                     "diffs": diffs.iter().take(6).collect::<Vec<_>>(),
@@ -983,9 +991,14 @@ pub fn child_main(args: &Args) -> ! {
                 })
             }
         }));
+        let stderr_was_broken = broken_stderr.is_some();
+        drop(broken_stderr);
         match payload {
-            Ok(v) => proc::child::end(i, &v.to_string()),
-            Err(_) => proc::child::end(i, &json!({"fired": fired, "caught_panic": true}).to_string()),
+            Ok(mut v) => {
+                v["stderr_unusable"] = json!(stderr_was_broken);
+                proc::child::end(i, &v.to_string())
+            }
+            Err(_) => proc::child::end(i, &json!({"fired": fired, "caught_panic": true, "stderr_unusable": stderr_was_broken}).to_string()),
         }
     }
     let _ = std::fs::remove_dir_all(&case_dir);
@@ -1448,6 +1461,12 @@ pub fn parent_main(args: &Args, mode: Mode) -> ! {
             let fired = rec["payload"]["fired"].as_bool().unwrap_or(true);
             let outcome = rec["outcome"].as_str().unwrap_or("?").to_string();
             *outcome_counts.entry(format!("{profile}:{outcome}")).or_insert(0) += 1;
+            if rec["payload"]["stderr_unusable"] == true {
+                ev.fired("environment:standard-error-unusable (EPIPE)", 1);
+            }
+            if rec["payload"]["moved_after_open"] == true {
+                ev.fired("environment:container-file-renamed-once-open", 1);
+            }
             let refused = rec["payload"]["mmap_refused"].as_u64().unwrap_or(0);
             if refused > 0 {
                 ev.fired("syscall-failure:mmap-refused", refused);
